@@ -335,6 +335,34 @@ def run(ctx):
         if not nb:
             ctx.ok(R_short, p)
 
+    # no step of the writers fails silently: the Result of every fallible call inside the functions the writers reach is looked at
+    # (`?`, match, is_err..) — `let _x = self.write_block_table(..);` builds and persists an archive whose table was never written
+    R_drop = ctx.rule("C12.no-result-of-a-writing-step-dropped", "in every function the archive writers reach, the Result returned by a call into the crate's writing code or std::io (write_all / seek / flush / sync_all / set_len) flows into a `?` / match / test or is returned", floor=100)
+    from ..rules import flows_to_check as _ftc
+    for p in sorted(cg.local_reachable(list(WRITERS))):
+        f = cg.fns[p]
+        if "::tests::" in p:
+            continue
+        nbad = 0
+        for bb, t in iter_calls(f):
+            c = mirg.callee(t) or ""
+            if t.get("x") or t.get("d") is None:
+                continue
+            dl = mirg.plocal(t["d"])
+            ty = (f.crate.ty(f.mir["locals"][dl][0]) or "") if dl is not None else ""
+            if not re.search(r"(^|[ <])(core::result::)?Result<", ty):
+                continue
+            if not (c.startswith("wow_mpq::") or re.search(r"io::(Write|Seek)>?::(write_all|seek|flush|rewind)$| as std::io::(Write|Seek)>::(write_all|seek|flush|rewind)$|File::(sync_all|sync_data|set_len)$|WriteBytesExt::write_", c)):
+                continue
+            ctx.call_sites += 1
+            if dl == 0 or _ftc(f, None, dl):
+                ctx.rules[R_drop]["obligations"] += 1
+                ctx.rules[R_drop]["discharged"] += 1
+            else:
+                nbad += 1
+                ctx.bad(R_drop, "%s|%s|result-dropped" % (p, c.split("::")[-1]), "%s:%d" % (f.file, t["ln"]), "the Result of `%s` is bound and never examined" % c.split("::")[-1],
+                        "when that step fails (disk full, quota, an interposed short write) the writer goes on, commits the temporary over the destination and returns Ok: the destination holds an archive with a missing or truncated region")
+
     buffered_writer_flush_rule(ctx, cg.local_reachable(list(WRITERS)), cg.fns, "C12", floor=50)
 
     # reachable set: no other fs mutation
